@@ -8,9 +8,16 @@ R.shape("Highlighter", _theme="dict[str,str]", _ui="dict[str,str]", g_numbered="
 R.local_kinds = getattr(R, "local_kinds", {})
 R.local_kinds[H + "line_numbers"] = {"snippet_lines": "list[str]"}
 
-R.contract(H + "highlighted_lines", params={"source": "str"}, returns="list[str]", fresh_result=True, assumed=True,
-           raises={"Exception": "True"},
-           note="tokenizer-based highlighting (tokenize is external): one entry per source line; bounded tier checks it")
+R.contract(H + "split_to_lines", params={"source": "str"}, returns="list[str]", fresh_result=True, assumed=True,
+           raises={"TokenError": "True", "SyntaxError": "True", "IndentationError": "True", "TabError": "True"},
+           modifies=[],
+           note="tokenizer-based highlighting (tokenize is external): one entry per source line (bounded tier); what the "
+                "tokenizer of the standard library raises on text that is not Python - tokenize.TokenError for an "
+                "unterminated string or bracket, IndentationError / TabError (SyntaxError) for indentation it cannot follow")
+R.contract(H + "highlighted_lines", params={"source": "str"}, returns="list[str]", fresh_result=True,
+           # C20: highlighting never fails, whatever the text of the source file is
+           raises={}, modifies=[],
+           note="every error of the tokenizer ends in the plain-lines fallback")
 KEYS = ("'line_marker' in self._theme and 'line_number' in self._theme and 'arrow' in self._ui and 'delimiter' in self._ui")
 R.contract(
     H + "line_numbers",
@@ -37,7 +44,7 @@ R.contract(
         # ... that contains the entry of the failing line whenever that line exists
         "implies(1 <= line and line <= len(self.g_numbered), %s <= line - 1 and line - 1 < %s + len(result))" % (K, K),
     ],
-    raises={"Exception": "True"},
+    raises={},  # C20: building the snippet never fails, whatever the source text and the line number are
     modifies=["self.g_numbered"],
 ).defaults = {"lines_before": 2, "lines_after": 2}
 
